@@ -14,6 +14,10 @@ a configured bound (all as REPAIRED by the `fix:` commits of this property unles
 | `code` | `conncode.Service.CreateConnectionCode` (+ `repos.ConnectionCodeRepository`) | `codeQuotaMu.Lock`; `GetList(index)` = n ids; n × `GetByID`; check; `GetByCode`, `Set`, `Set`; `AppendToList(index)`; unlock (`mutex`, `cnt n = n`, `mid = 3`, `final = plain`) |
 | `mapq` | `conncode.Service.ActivateConnectionCode` | `mappingQuotaMu.Lock`; `GetClientPortMappings` + count + check; `CreatePortMapping`; unlock |
 
+A request that finds the mutex held queues up (`PC.waiting`, one `blk` event per scheduled step while
+it waits) and is handed the mutex by the holder's `Unlock()` in arrival order (`handover`); `Op.other`
+is a request of another client going through the same service instance and the same mutex.
+
 Atomic step = one storage operation / one map operation under its lock / one atomic instruction /
 one call of an injectable collaborator.  The occupancy is the list of admitted items, oldest first
 (items are numbered in admission order, so the list is ascending).  The schedule, the limit, the
@@ -42,15 +46,18 @@ def full (P : Proto) (limit n : Nat) : Bool :=
   (!P.zeroUnl || decide (0 < limit)) && decide (limit ≤ n)
 
 inductive Op where
-  | acquire      -- one admission request
+  | acquire    -- one admission request
   | release    -- give back what this thread was admitted with last (close / delete), one step
+  | other      -- an admission request of ANOTHER client: same protocol, same mutex, not counted here
 deriving DecidableEq, Repr
 
 inductive PC where
   | idle                      -- between operations / before the first step of an admission
+  | waiting                   -- blocked in `Lock()` of the instance mutex (queued, FIFO hand-over)
   | locked                    -- holds the instance mutex, about to read
   | counting (snap k : Nat)   -- occupancy `snap` read, `k` more storage reads before the check
   | passed (snap k : Nat)     -- check passed on `snap`, `k` more operations before the final step
+  | noise (k : Nat)           -- request of another client past its check, `k` more operations
 deriving DecidableEq, Repr
 
 structure Thread where
@@ -73,6 +80,7 @@ structure Cfg where
   occ : List Nat          -- admitted items, oldest first
   next : Nat              -- next fresh item
   locks : List Nat        -- instances whose mutex is held
+  waitq : List Nat        -- threads blocked in `Lock()`, in arrival order
   threads : Nat → Thread
   trace : List Ev
 
@@ -80,25 +88,39 @@ def upd (ts : Nat → Thread) (i : Nat) (t : Thread) : Nat → Thread := fun j =
 
 def finishOp (t : Thread) : Thread := { t with ops := t.ops.tail, pc := .idle }
 
-def unlock (P : Proto) (locks : List Nat) (inst : Nat) : List Nat :=
-  if P.mutex then locks.erase inst else locks
+/-- `Unlock()` of the mutex of `inst`: the first thread waiting for it gets it (sync.Mutex wakes
+waiters in arrival order and nobody else is running), otherwise it becomes free. -/
+def handover (c : Cfg) (inst : Nat) : Cfg :=
+  match c.waitq.find? (fun t => decide ((c.threads t).pc = .waiting) && decide ((c.threads t).inst = inst)) with
+  | some t => { c with threads := upd c.threads t { c.threads t with pc := .locked },
+                       waitq := c.waitq.filter (fun x => x != t) }
+  | none => { c with locks := c.locks.erase inst }
+
+def unlockCfg (P : Proto) (c : Cfg) (inst : Nat) : Cfg := if P.mutex then handover c inst else c
 
 /-- Intermediate step: only the thread (and possibly the lock set) changes. -/
 def stpCfg (c : Cfg) (tid : Nat) (t : Thread) (locks : List Nat) : Cfg :=
   { c with locks := locks, threads := upd c.threads tid t, trace := c.trace ++ [.stp tid c.occ.length] }
 
 /-- The request is refused: nothing but the caller's own control state changes. -/
-def refuseCfg (P : Proto) (c : Cfg) (tid : Nat) : Cfg :=
-  { c with locks := unlock P c.locks (c.threads tid).inst,
-           threads := upd c.threads tid (finishOp (c.threads tid)),
+def refuseCore (c : Cfg) (tid : Nat) : Cfg :=
+  { c with threads := upd c.threads tid (finishOp (c.threads tid)),
            trace := c.trace ++ [.ref tid false c.occ.length] }
 
+def refuseCfg (P : Proto) (c : Cfg) (tid : Nat) : Cfg := unlockCfg P (refuseCore c tid) (c.threads tid).inst
+
 /-- The request is admitted into `base` (the occupancy, possibly minus an evicted victim). -/
-def admitCfg (P : Proto) (c : Cfg) (tid : Nat) (base : List Nat) (victim : Option Nat) : Cfg :=
+def admitCore (c : Cfg) (tid : Nat) (base : List Nat) (victim : Option Nat) : Cfg :=
   { c with occ := base ++ [c.next], next := c.next + 1,
-           locks := unlock P c.locks (c.threads tid).inst,
            threads := upd c.threads tid { finishOp (c.threads tid) with own := some c.next },
            trace := c.trace ++ [.adm tid c.next victim (base.length + 1)] }
+
+def admitCfg (P : Proto) (c : Cfg) (tid : Nat) (base : List Nat) (victim : Option Nat) : Cfg :=
+  unlockCfg P (admitCore c tid base victim) (c.threads tid).inst
+
+/-- A request of another client is over (admitted or refused there): only the mutex is released. -/
+def doneCfg (P : Proto) (c : Cfg) (tid : Nat) : Cfg :=
+  unlockCfg P (stpCfg c tid (finishOp (c.threads tid)) c.locks) (c.threads tid).inst
 
 def finalStep (P : Proto) (limit : Nat) (c : Cfg) (tid snap : Nat) : Cfg :=
   match P.final with
@@ -126,9 +148,29 @@ def readStep (P : Proto) (limit : Nat) (c : Cfg) (tid : Nat) : Cfg :=
     else stpCfg c tid { c.threads tid with pc := .counting c.occ.length (P.cnt c.occ.length) } c.locks
   else finalStep P limit c tid c.occ.length
 
+/-- The same for a request of another client: that client has nothing yet (occupancy 0, no record reads). -/
+def noiseStep (P : Proto) (limit : Nat) (c : Cfg) (tid : Nat) : Cfg :=
+  if P.early then
+    if full P limit 0 then doneCfg P c tid
+    else stpCfg c tid { c.threads tid with pc := .noise P.mid } c.locks
+  else doneCfg P c tid
+
 def nopCfg (c : Cfg) (tid : Nat) : Cfg :=
   { c with threads := upd c.threads tid { finishOp (c.threads tid) with own := none },
            trace := c.trace ++ [.nop tid c.occ.length] }
+
+def blkCfg (c : Cfg) (tid : Nat) : Cfg := { c with trace := c.trace ++ [.blk tid c.occ.length] }
+
+/-- The thread queues up in `Lock()`. -/
+def waitCfg (c : Cfg) (tid : Nat) : Cfg :=
+  { c with threads := upd c.threads tid { c.threads tid with pc := .waiting },
+           waitq := c.waitq ++ [tid],
+           trace := c.trace ++ [.blk tid c.occ.length] }
+
+/-- `Lock()`: take the free mutex, or queue up behind its holder. -/
+def lockStep (c : Cfg) (tid : Nat) : Cfg :=
+  if (c.threads tid).inst ∈ c.locks then waitCfg c tid
+  else stpCfg c tid { c.threads tid with pc := .locked } ((c.threads tid).inst :: c.locks)
 
 /-- One atomic step of thread `tid`. -/
 def stepThread (P : Proto) (limit : Nat) (c : Cfg) (tid : Nat) : Cfg :=
@@ -145,12 +187,8 @@ def stepThread (P : Proto) (limit : Nat) (c : Cfg) (tid : Nat) : Cfg :=
       else nopCfg c tid
   | .acquire :: _ =>
     match (c.threads tid).pc with
-    | .idle =>
-      if P.mutex then
-        if (c.threads tid).inst ∈ c.locks then
-          { c with trace := c.trace ++ [.blk tid c.occ.length] }
-        else stpCfg c tid { c.threads tid with pc := .locked } ((c.threads tid).inst :: c.locks)
-      else readStep P limit c tid
+    | .idle => if P.mutex then lockStep c tid else readStep P limit c tid
+    | .waiting => blkCfg c tid
     | .locked => readStep P limit c tid
     | .counting snap k =>
       if k ≤ 1 then checkStep P limit c tid snap
@@ -159,6 +197,18 @@ def stepThread (P : Proto) (limit : Nat) (c : Cfg) (tid : Nat) : Cfg :=
       match k with
       | 0 => finalStep P limit c tid snap
       | k' + 1 => stpCfg c tid { c.threads tid with pc := .passed snap k' } c.locks
+    | .noise _ => c
+  | .other :: _ =>
+    match (c.threads tid).pc with
+    | .idle => if P.mutex then lockStep c tid else noiseStep P limit c tid
+    | .waiting => blkCfg c tid
+    | .locked => noiseStep P limit c tid
+    | .noise k =>
+      match k with
+      | 0 => doneCfg P c tid
+      | k' + 1 => stpCfg c tid { c.threads tid with pc := .noise k' } c.locks
+    | .counting _ _ => c
+    | .passed _ _ => c
 
 def run (P : Proto) (limit : Nat) (c : Cfg) (σ : List Nat) : Cfg := σ.foldl (stepThread P limit) c
 
@@ -172,7 +222,7 @@ def mkThreads (progs : List (Nat × List Op)) : Nat → Thread :=
 
 /-- `pre` items `0..pre-1` are already admitted. -/
 def init (pre : Nat) (progs : List (Nat × List Op)) : Cfg :=
-  ⟨List.range pre, pre, [], mkThreads progs, []⟩
+  ⟨List.range pre, pre, [], [], mkThreads progs, []⟩
 
 /-! ## The instances -/
 
